@@ -81,8 +81,11 @@ func genC17(r *Rng, tier string) *c17W {
 				s = append(s, cOp{Op: "delGraph", G: "g2"})
 			case k < 66:
 				s = append(s, cOp{Op: "bulk", G: g, ID: Pick(r, []string{"a", "b", "c"})})
-			case k < 80:
+			case k < 74:
 				s = append(s, cOp{Op: "query", G: g, Query: Pick(r, []string{"V", "V.out", "E", "V.count", "V.hasLabel"})})
+			case k < 80:
+				// a caching client: reads the graph's timestamp, then a listing, and keeps both
+				s = append(s, cOp{Op: "cachedQuery", G: g, Query: Pick(r, []string{"V", "E"})})
 			case k < 85:
 				s = append(s, cOp{Op: "getV", G: g, ID: Pick(r, []string{"a", "b", "c"})})
 			case k < 88:
@@ -260,6 +263,14 @@ func execC17(w *c17W, x *Exec) *Outcome {
 	written := map[string]bool{}
 	var badReads []string
 	var got *obs
+	// caching clients (C03's last clause under concurrency): an entry is
+	// (graph, timestamp read first, listing read second); once everybody has
+	// returned, an entry whose timestamp is still the graph's timestamp must
+	// still be the listing. Holds when every element write touches the
+	// timestamp after it became visible.
+	type cacheEntry struct{ g, q, ts, rows string }
+	var cache []cacheEntry
+	staleCache := ""
 	u := universe{Graphs: []string{"g1", "g2"}, VIDs: []string{"a", "b", "c"}, EIDs: []string{"e1", "e2", "e3", "e4"}, VLabels: gen.VLabels, ELabels: gen.ELabels, HideSchemaGraphs: true}
 	var setupErr error
 	returned := 0
@@ -340,6 +351,20 @@ func execC17(w *c17W, x *Exec) *Outcome {
 						ts := &traversalStream{}
 						srv.Srv.Traversal(&gripql.GraphQuery{Graph: op.G, Query: q}, ts)
 						checkRows(ts.Rows)
+					case "cachedQuery":
+						if t, e := srv.Srv.GetTimestamp(ctx, &gripql.GraphID{Graph: op.G}); e == nil && t != nil {
+							q := gen.StmtsOf(gen.V())
+							if op.Query == "E" {
+								q = gen.StmtsOf(gen.E())
+							}
+							ts := &traversalStream{}
+							if e := srv.Srv.Traversal(&gripql.GraphQuery{Graph: op.G, Query: q}, ts); e == nil {
+								checkRows(ts.Rows)
+								rows := append([]string{}, ts.Rows...)
+								sort.Strings(rows)
+								cache = append(cache, cacheEntry{op.G, op.Query, t.Timestamp, strings.Join(rows, "\n")})
+							}
+						}
 					case "getV":
 						if v, e := srv.Srv.GetVertex(ctx, &gripql.ElementID{Graph: op.G, Id: op.ID}); e == nil {
 							checkRows([]string{model.Canon(vertexJSON(v))})
@@ -374,7 +399,29 @@ func execC17(w *c17W, x *Exec) *Outcome {
 				}
 				returned++
 				if returned == len(w.Sessions) {
-					s.Passive(func() { got = observeReal(srv.DB, u, x.WorkDir) })
+					s.Passive(func() {
+						got = observeReal(srv.DB, u, x.WorkDir)
+						for _, ce := range cache {
+							t, e := srv.Srv.GetTimestamp(ctx, &gripql.GraphID{Graph: ce.g})
+							if e != nil || t == nil || t.Timestamp != ce.ts {
+								continue
+							}
+							q := gen.StmtsOf(gen.V())
+							if ce.q == "E" {
+								q = gen.StmtsOf(gen.E())
+							}
+							ts := &traversalStream{}
+							if e := srv.Srv.Traversal(&gripql.GraphQuery{Graph: ce.g, Query: q}, ts); e != nil {
+								continue
+							}
+							rows := append([]string{}, ts.Rows...)
+							sort.Strings(rows)
+							o.Count("cache_entries_still_current", 1)
+							if now := strings.Join(rows, "\n"); now != ce.rows && staleCache == "" {
+								staleCache = fmt.Sprintf("graph %s, %s(): timestamp %s read before the listing is still the graph's timestamp, but the listing was\n%s\nand is now\n%s", ce.g, ce.q, ce.ts, ce.rows, now)
+							}
+						}
+					})
 				}
 			})
 		}
@@ -396,6 +443,8 @@ func execC17(w *c17W, x *Exec) *Outcome {
 	case len(badReads) > 0:
 		sort.Strings(badReads)
 		o.Violation = &Violation{Signature: "C17/read-of-a-value-nobody-wrote", Detail: badReads[0]}
+	case staleCache != "":
+		o.Violation = &Violation{Signature: "C17/unchanged-timestamp-but-changed-listing", Detail: staleCache}
 	case got == nil:
 		o.Inconclusive = "infra:no final observation"
 	default:
